@@ -365,6 +365,9 @@ func (c *Chain) queryLeaves(m Mode) []interface{} {
 		}
 	}
 	out = append(out, whereLeaves(c.topExprs(m), c.softDelete())...)
+	for _, h := range c.PreHavings {
+		out = append(out, unitLeaves(h, m)...)
+	}
 	if c.Having != nil {
 		out = append(out, unitLeaves(*c.Having, m)...)
 	}
@@ -813,6 +816,9 @@ func (w *walker) chain(c *Chain) {
 	}
 	if c.Inline != nil {
 		w.unit(*c.Inline, "inline")
+	}
+	for _, h := range c.PreHavings {
+		w.unit(h, "having")
 	}
 	if c.Having != nil {
 		w.unit(*c.Having, "having")
